@@ -153,13 +153,13 @@ func suiteC18(s *Suite, rng *Rng, tier string) {
 						whole := doc[m[0]:m[1]]
 						closing := "</" + name + ">"
 						variants := map[string]string{
-							"deleted":     strings.Replace(doc, whole+name+">", "", 1),
-							"negated":     doc[:m[4]] + "-" + num + doc[m[5]:],
-							"garbled":     doc[:m[4]] + num[:len(num)/2] + "x" + num[len(num)/2:] + doc[m[5]:],
-							"empty":       doc[:m[4]] + doc[m[5]:],
-							"hex":         doc[:m[4]] + "0x1f" + doc[m[5]:],
-							"plus-one":    "",
-							"whitespace":  "",
+							"deleted":    strings.Replace(doc, whole+name+">", "", 1),
+							"negated":    doc[:m[4]] + "-" + num + doc[m[5]:],
+							"garbled":    doc[:m[4]] + num[:len(num)/2] + "x" + num[len(num)/2:] + doc[m[5]:],
+							"empty":      doc[:m[4]] + doc[m[5]:],
+							"hex":        doc[:m[4]] + "0x1f" + doc[m[5]:],
+							"plus-one":   "",
+							"whitespace": "",
 						}
 						_ = closing
 						for kind, d := range variants {
@@ -337,6 +337,113 @@ func suiteC18(s *Suite, rng *Rng, tier string) {
 			if err := json.Unmarshal(wb, &w3); err != nil || w3.U.Cmp(w.U) != 0 || w3.E.Cmp(w.E) != 0 || w3.Verify(kp.Pk) != nil {
 				s.Violate("C18:message-roundtrip", "witness does not survive JSON", L{tr})
 			}
+		}
+	}
+	// ---------- (C') event lists in their compressed transport form, with and without the product ----------
+	{
+		kp := makeKey(1024, 0, 2, rng, true)
+		h := newRevHistory(kp)
+		nev := 7
+		for i := 0; i < nev; i++ {
+			h.revoke(nextPrime(rng.Bits(100+rng.Intn(60)), 1))
+		}
+		type wireEL struct {
+			Index      uint64          `json:"i"`
+			ParentHash revocation.Hash `json:"hash"`
+			E          []*gbig.Int     `json:"e"`
+		}
+		smallLeft := 4
+		for from := 0; from <= nev; from++ {
+			for to := from; to <= nev; to++ {
+				for _, tr := range []string{"json", "cbor"} {
+					for _, cp := range []bool{true, false} {
+						orig := revocation.NewEventList(append([]*revocation.Event{}, h.events[from:to+1]...)...)
+						reread := &revocation.EventList{ComputeProduct: cp}
+						var w wireEL
+						var err, werr error
+						if tr == "json" {
+							b, _ := json.Marshal(orig)
+							err = json.Unmarshal(b, reread)
+							werr = json.Unmarshal(b, &w)
+						} else {
+							b, _ := cbor.Marshal(orig, cbor.EncOptions{})
+							err = cbor.Unmarshal(b, reread)
+							werr = cbor.Unmarshal(b, &w)
+						}
+						desc := fmt.Sprintf("%s events %d..%d product=%v", tr, from, to, cp)
+						if err != nil || werr != nil {
+							s.Violate("C18:eventlist-roundtrip", "event list does not unmarshal: "+desc, L{desc})
+							continue
+						}
+						_, _, prod := reread.VerifFlags()
+						es := L{}
+						for _, e := range w.E {
+							es = append(es, e)
+						}
+						s.Add(1807, "uncompress:"+tr, smallLeft > 0, L{b2i(cp), L{w.Index, dumpHash(w.ParentHash), es}}, okV(L{dumpEvents(reread.Events), prod}))
+						if smallLeft > 0 {
+							smallLeft--
+						}
+						s.Nontrivial["el"+desc] = true
+						same := len(reread.Events) == len(orig.Events)
+						want := bi(1)
+						for i := range orig.Events {
+							want.Mul(want, orig.Events[i].E)
+							if same && (reread.Events[i].Index != orig.Events[i].Index || reread.Events[i].E.Cmp(orig.Events[i].E) != 0 ||
+								!reread.Events[i].ParentHash.Equal(orig.Events[i].ParentHash)) {
+								same = false
+							}
+						}
+						if !same {
+							s.Violate("C18:eventlist-roundtrip", "re-read event list differs from the original: "+desc, L{desc})
+						}
+						if cp && (prod == nil || prod.Cmp(want) != 0) {
+							s.Violate("C18:eventlist-product", "product of the re-read event list is not the product of its events: "+desc, L{desc})
+						}
+						if !cp && prod != nil {
+							s.Violate("C18:eventlist-product", "product computed although not requested: "+desc, L{desc})
+						}
+						// meaning: prepended to the newest update, the re-read list updates a witness exactly like the original events
+						if to < nev && from >= 1 {
+							u2 := h.window(to+1, nev)
+							if _, err := u2.Verify(kp.Pk); err != nil {
+								panic(err)
+							}
+							if err := u2.Prepend(reread); err != nil {
+								s.Violate("C18:eventlist-roundtrip", "re-read event list cannot be prepended: "+desc+": "+err.Error(), L{desc})
+								continue
+							}
+							wa := h.issue(from-1, bi(7919))
+							wb := h.issue(from-1, bi(7919))
+							e1 := wa.Update(kp.Pk, h.window(from, nev))
+							e2 := wb.Update(kp.Pk, u2)
+							if (e1 == nil) != (e2 == nil) || wa.U.Cmp(wb.U) != 0 || e1 != nil {
+								s.Violate("C18:eventlist-roundtrip", fmt.Sprintf("witness update through the re-read event list differs from the direct one (%v / %v): %s", e1, e2, desc), L{desc})
+							}
+						}
+					}
+				}
+			}
+		}
+		// a list with an empty attribute is refused
+		for _, tr := range []string{"json", "cbor"} {
+			w := wireEL{Index: 3, ParentHash: h.events[3].ParentHash, E: []*gbig.Int{h.events[3].E, nil, h.events[5].E}}
+			reread := &revocation.EventList{ComputeProduct: true}
+			var err error
+			if tr == "json" {
+				b, _ := json.Marshal(w)
+				err = json.Unmarshal(b, reread)
+			} else {
+				b, _ := cbor.Marshal(w, cbor.EncOptions{})
+				err = cbor.Unmarshal(b, reread)
+			}
+			var out V = errV()
+			if err == nil {
+				_, _, prod := reread.VerifFlags()
+				out = okV(L{dumpEvents(reread.Events), prod})
+				s.Violate("C18:eventlist-empty-attribute-accepted", "event list with an empty revocation attribute was read ("+tr+")", L{tr})
+			}
+			s.Add(1807, "uncompress-empty-attribute:"+tr, true, L{1, L{w.Index, dumpHash(w.ParentHash), L{w.E[0], nil, w.E[2]}}}, out)
 		}
 	}
 	// ---------- (D) private key files are never left readable by group or others ----------
